@@ -23,7 +23,7 @@ Oracle, from the statement:
     (so a clock-derived value anywhere else shows up as a difference too: baseline clock is fixed in 2020);
   * after every sequence no mutable default argument of any pyx12 function has changed.
 """
-import os, sys, io, json, time, signal, hashlib, inspect, itertools, subprocess
+import os, sys, io, json, time, signal, hashlib, inspect, subprocess
 from concurrent.futures import ThreadPoolExecutor
 from mc import core
 core.bind_repo()
@@ -357,6 +357,13 @@ def compare(op, got, want):
     return out
 
 
+def own_seed():
+    """hash seed of this process (./check pins PYTHONHASHSEED, default 0): forked children inherit it, so they are
+    compared with the baseline taken under the same seed"""
+    v = os.environ.get('PYTHONHASHSEED', '')
+    return int(v) if v.isdigit() else 0
+
+
 def baselines_for(pairs, jobs):
     """pairs: iterable of (doc, op).  -> (BASE {doc|op: masked obs}, XML {doc: xml}, findings, n_runs)
     All four hash seeds are run for every event; `x` events need the XML of the document's `v` event."""
@@ -364,19 +371,21 @@ def baselines_for(pairs, jobs):
     need_v = sorted(set(d for d, op in pairs if op in ('v', 'x')))
     first = [(d, 'v') for d in need_v] + [(d, op) for d, op in pairs if op == 'c']
     raw = {}
+    mine = own_seed()
+    seeds = tuple(SEEDS) + (() if mine in SEEDS else (mine,))
     with ThreadPoolExecutor(max_workers=max(1, jobs)) as ex:
-        futs = {(d, op, s): ex.submit(baseline, d, op, s) for d, op in first for s in SEEDS}
+        futs = {(d, op, s): ex.submit(baseline, d, op, s) for d, op in first for s in seeds}
         for k, f in futs.items():
             raw[k] = f.result()
         xml = {d: raw[(d, 'v', 0)]['xml'] for d in need_v}
-        futs = {(d, 'x', s): ex.submit(baseline, d, 'x', s, xml[d]) for d, op in pairs if op == 'x' for s in SEEDS}
+        futs = {(d, 'x', s): ex.submit(baseline, d, 'x', s, xml[d]) for d, op in pairs if op == 'x' for s in seeds}
         for k, f in futs.items():
             raw[k] = f.result()
     base, findings = {}, []
     for d, op in sorted(set((k[0], k[1]) for k in raw)):
         r0 = raw[(d, op, 0)]
-        base['%s|%s' % (d, op)] = mask(op, {k: v for k, v in r0.items() if k != '__defaults'})
-        for s in SEEDS:
+        base['%s|%s' % (d, op)] = mask(op, {k: v for k, v in raw[(d, op, mine)].items() if k != '__defaults'})
+        for s in seeds:
             r = raw[(d, op, s)]
             for comp, desc in compare(op, r, r0):
                 findings.append(('C18|hashseed|%s|%s' % (OPNAME[op], comp), {'kind': 'hashseed', 'ev': [d, op]},
